@@ -7,4 +7,6 @@ cd /verif || exit 2
 if [ ! -x bin/symgo ] || [ -n "$(find engine -name '*.go' -newer bin/symgo 2>/dev/null | head -1)" ]; then
   (cd engine && go build -o /verif/bin/symgo ./cmd/symgo) || { echo "INCONCLUSIVE property=$1 cannot build symgo"; exit 2; }
 fi
-exec bin/symgo -prop "$1" -tier "${2:-quick}" -jobs "${VERIF_JOBS:-16}"
+# quick tier: run-wide limit (items unfinished by then are inconclusive; confirmed violations are still reported)
+dl=0; [ "${2:-quick}" = quick ] && dl="${VERIF_DEADLINE:-1500}"
+exec bin/symgo -prop "$1" -tier "${2:-quick}" -jobs "${VERIF_JOBS:-16}" -deadline "$dl"
